@@ -55,6 +55,21 @@ def lookupII (op : String) (p : List Int) (var : String) (cbs : List Cb) : Optio
   | "Max", [], [] => some ⟨_, maxM⟩
   | "Clamp", [lo, hi], [] => some ⟨_, clampM lo hi⟩
   | "Reduce", [seed], [cb] => (mkRed var cb).map (fun f => ⟨_, reduceM f seed⟩)
+  -- RoModel/Ops/More.lean
+  | "ContextWithValue", [m], [] =>
+      some (if (ctxWithValueUp (natOf m) Ctx.bg).marks.contains (natOf m)
+        then ⟨_, (ctxWithValueM (α := Int) upMark).seq (ctxWithValueM (natOf m))⟩
+        else ⟨_, ctxWithValueM (α := Int) (natOf m)⟩)
+  | "ContextWithTimeout", [], [] => some ⟨_, contextMapM (α := Int) (fun c _ => c)⟩
+  | "ContextWithDeadline", [], [] => some ⟨_, contextMapM (α := Int) (fun c _ => c)⟩
+  | "ContextMap", [], [cb] => (ctxMapCb var cb).map (fun f => ⟨_, contextMapM (α := Int) f⟩)
+  | "TapOnSubscribeWithContext", [], [] => some ⟨_, idM (α := Int)⟩
+  | "DoOnSubscribe", [], [] => some ⟨_, idM (α := Int)⟩
+  | "DoOnFinalize", [], [] => some ⟨_, idM (α := Int)⟩
+  | "DelayEach", [], [] => some ⟨_, idM (α := Int)⟩
+  | "TimeInterval", [], [] => some ⟨_, (timedM (α := Int) (fun _ => ())).mapOut Prod.fst⟩
+  | "Timestamp", [], [] => some ⟨_, (timedM (α := Int) (fun _ => ())).mapOut Prod.fst⟩
+  | name, [], [] => (tapSel name).map (fun sel => ⟨_, tapM sel⟩)
   | _, _, _ => none
 
 def parseStage (t : String) : Option AnyM :=
